@@ -52,7 +52,7 @@ def r12_1b(ctx, rep, roles):
         if not rm:
             continue
         n += 1
-        targets = sorted(e[2][0][2][-1][2] for e in rm if e[2][0][0] == "ptr" and e[2][0][2])
+        targets = sorted(str(T.path_field(e[2][0][2])) for e in rm if e[2][0][0] == "ptr" and e[2][0][2])
         keys = {e[2][1] for e in rm}
         rep.obligation(targets == ["dead_nodes", "node_samples"] and len(keys) == 1, "C12/R12.1b/gc-removal",
                        "garbage_collect removes from %s with %d different keys" % (targets, len(keys)), where(gc),
